@@ -11,7 +11,14 @@ use scpi::parser::tokenizer::Tokenizer;
 
 fn emit<T: ResponseData>(v: T) -> std::result::Result<Vec<u8>, String> {
     let mut out: Vec<u8> = Vec::new();
-    match v.format_response_data(&mut out) { Ok(()) => Ok(out), Err(e) => Err(show_error(&e)) }
+    let r = v.format_response_data(&mut out);
+    // the same value written at a non-zero offset of the buffer (after an earlier unit) must give the same text
+    let mut pre: Vec<u8> = b"7;".to_vec();
+    let r2 = v.format_response_data(&mut pre);
+    if r.is_ok() != r2.is_ok() || (r.is_ok() && pre[2..] != out[..]) {
+        return Err(format!("OFFSET-DEPENDENT {} vs {}", hex(&out), hex(&pre[2.min(pre.len())..])));
+    }
+    match r { Ok(()) => Ok(out), Err(e) => Err(show_error(&e)) }
 }
 
 fn back(ty: &str, text: &[u8]) -> String {
